@@ -2,6 +2,7 @@ import os
 import functools
 import threading
 import inspect
+import math
 from collections import defaultdict
 import numpy as np
 from functools import partial
@@ -35,6 +36,8 @@ def _value_types(x):
         return tuple(_value_types(v) for v in x)
     elif isinstance(x, frozendict.frozendict):
         return tuple((k, _value_types(v)) for k, v in x.items())
+    elif isinstance(x, float | np.floating) and x == 0 and math.copysign(1.0, x) < 0:
+        return (type(x), "-0.0")  # 0.0 and -0.0 compare (and hash) equal as well
     elif isinstance(x, bool | int | float | complex | np.number | np.bool_):
         return type(x)
     else:
